@@ -2,7 +2,7 @@
 import uuid
 from datetime import date, datetime, time, timedelta
 from decimal import Decimal
-from typing import Dict, List, Tuple
+from typing import Dict, List, Tuple, Union
 
 from utype import Options, Rule, Schema
 from utype.utils.transform import TypeTransformer, type_transform
@@ -63,7 +63,10 @@ TARGETS = {
     'IntSub': IntSub, 'StrSub': StrSub, 'ListSub': ListSub, 'DictSub': DictSub,
     'List[int]': Rule.parse_annotation(List[int]), 'Tuple[int,str]': Rule.parse_annotation(Tuple[int, str]),
     'Dict[str,int]': Rule.parse_annotation(Dict[str, int]), 'DC': DC,
+    'int|Decimal': Rule.any_of(int, Decimal), 'int|str': Rule.any_of(int, str), 'int|float': Rule.any_of(int, float),
+    'str|List[int]': Rule.parse_annotation(Union[str, List[int]]), 'date|datetime': Rule.parse_annotation(Union[date, datetime]),
 }
+UNION_ARMS = {'int|Decimal': (int, Decimal), 'int|str': (int, str), 'int|float': (int, float)}
 TARGET_GROUP = {'int': 'number', 'float': 'number', 'decimal': 'number', 'IntSub': 'number', 'str': 'string', 'bytes': 'string',
                 'StrSub': 'string', 'bool': 'boolean', 'none': 'null', 'list': 'array', 'tuple': 'array', 'set': 'array',
                 'frozenset': 'array', 'ListSub': 'array', 'dict': 'object', 'DictSub': 'object'}
@@ -153,10 +156,18 @@ def _prefs(V, tname):
     det = lambda: '%s <- %r (%s): default %r ; no_explicit_cast %r ; no_data_loss %r ; both %r' % (
         tname, x, type(x).__name__, plain, cast, loss, both)
     # --- 1. the flags only restrict
+    flagsets = {'no_explicit_cast': dict(no_explicit_cast=True), 'no_data_loss': dict(no_data_loss=True),
+                'both': dict(no_explicit_cast=True, no_data_loss=True)}
     for label, r in (('no_explicit_cast', cast), ('no_data_loss', loss), ('both', both)):
         if r[0] == 'ok':
             V.check(plain[0] == 'ok', 'restrict:accepted-only-with-' + label, det)
-            V.check(same(r[1], plain[1]), 'restrict:different-value-with-' + label, det)
+            suffix = ''
+            if tname in UNION_ARMS and plain[0] == 'ok' and not same(r[1], plain[1]):
+                # which argument produced the default result, and could it still convert x under this flag set?
+                arm = [a for a in UNION_ARMS[tname] if type(plain[1]) is a]
+                still = arm and conv(x, arm[0], **flagsets[label])[0] == 'ok'
+                suffix = ':union-arm-still-available' if still else ':union-arm-unavailable-under-flags'
+            V.check(same(r[1], plain[1]), 'restrict:different-value-with-' + label + suffix, det)
     if both[0] == 'ok':
         V.check(cast[0] == 'ok' and loss[0] == 'ok', 'restrict:both-accepts-more-than-each', det)
     # --- 2. no_data_loss promises
@@ -182,7 +193,14 @@ def _prefs(V, tname):
         if tname == 'date':
             V.check(not isinstance(x, datetime), 'loss:datetime-became-date', det)
             if isinstance(x, str):
-                V.check(':' not in x, 'loss:timed-string-became-date', det)
+                import re as _re
+                midnight = bool(_re.search(r'[ T]00:00(:00(\.0+)?)?(Z| ?[+-]\d\d:?\d\d)?$', x.strip()))
+                V.check(':' not in x, 'loss:timed-string-became-date' + (':midnight' if midnight else ''), det)
+            if isinstance(x, (bytes, bytearray)):
+                V.check(b':' not in bytes(x), 'loss:timed-string-became-date', det)
+            if isinstance(x, (int, float, Decimal)) and not isinstance(x, bool):
+                frac = float(x % 86400)
+                V.check(not (1e-6 <= frac <= 86400 - 1e-6), 'loss:timed-timestamp-became-date', det)   # below a microsecond there is no time part
         if tname == 'Tuple[int,str]' and g == {'array'}:
             V.check(len(x) <= 2, 'loss:extra-tuple-items-accepted', det)
         if tname == 'DC' and isinstance(x, dict):
@@ -198,7 +216,7 @@ def _prefs(V, tname):
 
 
 for _t in TARGETS:
-    ob('prefs/' + _t, marks=['reject'] if _t in ('uuid',) else ['both'] if _t in ('list', 'tuple', 'set', 'frozenset', 'ListSub', 'str', 'bytes', 'StrSub', 'bool') else ['both', 'reject'], budget=(60, 400), per_path=(10, 20),
+    ob('prefs/' + _t, marks=['reject'] if _t in ('uuid',) else ['both'] if _t in ('list', 'tuple', 'set', 'frozenset', 'ListSub', 'str', 'bytes', 'StrSub', 'bool', 'int|str', 'str|List[int]') else ['both', 'reject'], budget=(35, 400), per_path=(10, 20),
        exhaustive=False,
        bounds='target %s; source from the shared value generator (solver ints, special floats, numeric / structured / temporal '
               'vocabulary strings, symbolic strings <= 2 chars for cheap targets, bytes-likes, 30 hostile objects incl. Decimal / date / '
